@@ -381,7 +381,20 @@ pub fn run_case<F: Flavour>(c: &CCase, st: &mut Stats, counting: bool) -> bool {
         st.eval();
     }
     for (i, op) in c.ops.iter().enumerate() {
-        let r = catch_unwind(AssertUnwindSafe(|| step::<F>(&mut w, op, st, counting)));
+        let container_call = !matches!(op, COp::Connect(..) | COp::ConnectBurst(..) | COp::Disconnect(..) | COp::Isolate(_));
+        let lists = |w: &World<F>| -> Vec<(L, L)> { w.prim.iter().chain(w.imp.iter()).map(|x| (F::out_list(x), F::in_list(x))).collect() };
+        let before = if container_call { catch_unwind(AssertUnwindSafe(|| lists(&w))).ok() } else { None };
+        let r = catch_unwind(AssertUnwindSafe(|| {
+            step::<F>(&mut w, op, st, counting)?;
+            if let Some(b) = &before {
+                let after = lists(&w);
+                if *b != after {
+                    let k = (0..b.len()).find(|&k| b[k] != after[k]).unwrap();
+                    return fail("container-call.changed-edges", format!("node {}{}: lists before {:?} after {:?}", k % c.n, if k >= c.n { " (second node with that key)" } else { "" }, b[k], after[k]));
+                }
+            }
+            Ok(())
+        }));
         let res = match r {
             Ok(x) => x,
             Err(p) => {
@@ -504,8 +517,169 @@ fn enumerate(len: usize, st: &mut Stats, wd: &Watchdog, w: usize, workers: usize
     }
 }
 
+/// The documented idiom `g.insert(Node::new(k, v))`: the container holds the ONLY strong handle of every
+/// node; edges are made through temporary handles from `get`. Then members are removed one by one (the
+/// returned handles are kept so that no peer is released) and after every removal every node's lists, the
+/// views and the DOT text are compared with the model.
+#[derive(Clone, Debug, PartialEq, Eq, Hash, Serialize, Deserialize)]
+pub struct SoleCase {
+    pub n: usize,
+    pub edges: Vec<(Key, Key, EV)>,
+    pub removes: Vec<Key>,
+}
+
+pub fn run_sole<F: Flavour>(c: &SoleCase, st: &mut Stats, counting: bool) -> bool {
+    if F::SYNC {
+        hook::install_self_deadlock_detector();
+    }
+    if counting {
+        st.eval();
+    }
+    let r = catch_unwind(AssertUnwindSafe(|| -> Result<(), Fail> {
+        let n = c.n;
+        let mut g = F::g_new();
+        for i in 0..n {
+            if !F::g_insert(&mut g, F::new_node(i as Key, NVal::plain(i as i32))) {
+                return fail("insert.return", format!("fresh key {} rejected", i));
+            }
+        }
+        let mut out: Vec<L> = vec![vec![]; n];
+        let mut inc: Vec<L> = vec![vec![]; n];
+        for &(u, v, e) in &c.edges {
+            let hu = F::g_get(&g, u).ok_or(Fail { clause: "get.membership", detail: format!("get({}) is None for a member", u) })?;
+            let hv = F::g_get(&g, v).ok_or(Fail { clause: "get.membership", detail: format!("get({}) is None for a member", v) })?;
+            F::connect(&hu, &hv, e);
+            out[u as usize].push((v, e));
+            if F::DIRECTED {
+                inc[v as usize].push((u, e));
+            } else {
+                out[v as usize].push((u, e));
+            }
+        }
+        if !F::DIRECTED {
+            out.iter_mut().for_each(|l| l.sort());
+        }
+        let mut removed: BTreeMap<Key, F::Node> = BTreeMap::new();
+        let check = |g: &F::Graph, removed: &BTreeMap<Key, F::Node>, when: &str| -> Result<(), Fail> {
+            let mut members: BTreeSet<Key> = BTreeSet::new();
+            for k in 0..n as Key {
+                let h = match (F::g_get(g, k), removed.get(&k)) {
+                    (Some(h), None) => {
+                        members.insert(k);
+                        h
+                    }
+                    (None, Some(h)) => h.clone(),
+                    (a, _) => return fail("get.membership", format!("{}: get({}) is_some={}", when, k, a.is_some())),
+                };
+                let (mut o, i) = (F::out_list(&h), F::in_list(&h));
+                if !F::DIRECTED {
+                    // an undirected node lists the edges it made before the ones made by its peers: order is C02/C03's business
+                    o.sort();
+                }
+                if o != out[k as usize] || (F::DIRECTED && i != inc[k as usize]) {
+                    return fail("container-call.changed-edges", format!("{}: node {} lists out {:?} in {:?}, expected out {:?} in {:?}", when, k, o, i, out[k as usize], inc[k as usize]));
+                }
+            }
+            if F::g_len(g) != members.len() {
+                return fail("len", format!("{}: len {} for {} members", when, F::g_len(g), members.len()));
+            }
+            let keys = |v: Vec<F::Node>| -> BTreeSet<Key> { v.iter().map(|x| F::key(x)).collect() };
+            let ex = |p: &dyn Fn(Key) -> bool| -> BTreeSet<Key> { members.iter().cloned().filter(|k| p(*k)).collect() };
+            if keys(F::g_orphans(g)) != ex(&|k| out[k as usize].is_empty() && inc[k as usize].is_empty()) {
+                return fail("views.orphans", format!("{}: got {:?}", when, keys(F::g_orphans(g))));
+            }
+            if F::DIRECTED {
+                if keys(F::g_roots(g)) != ex(&|k| inc[k as usize].is_empty()) {
+                    return fail("views.roots", format!("{}: got {:?}", when, keys(F::g_roots(g))));
+                }
+                if keys(F::g_leaves(g)) != ex(&|k| out[k as usize].is_empty()) {
+                    return fail("views.leaves", format!("{}: got {:?}", when, keys(F::g_leaves(g))));
+                }
+            }
+            let text = F::g_to_dot(g);
+            let d = parse_dot(&text).map_err(|e| Fail { clause: "dot.unparsable", detail: e })?;
+            let mut got: Vec<(String, String)> = d.edges.iter().map(|x| (x.0.clone(), x.1.clone())).collect();
+            got.sort();
+            let mut exp: Vec<(String, String)> = members.iter().flat_map(|k| out[*k as usize].iter().map(move |(t, _)| (k.to_string(), t.to_string()))).collect();
+            exp.sort();
+            if got != exp {
+                return fail("dot.edge-statements", format!("{}: got {:?} expected {:?}", when, got, exp));
+            }
+            Ok(())
+        };
+        check(&g, &removed, "before any removal")?;
+        for &k in &c.removes {
+            if removed.contains_key(&k) {
+                if F::g_remove(&mut g, k).is_some() {
+                    return fail("remove.membership", format!("second remove({}) returned a node", k));
+                }
+                continue;
+            }
+            let h = F::g_remove(&mut g, k).ok_or(Fail { clause: "remove.membership", detail: format!("remove({}) is None for a member", k) })?;
+            if F::key(&h) != k {
+                return fail("remove.different-node", format!("key {}", k));
+            }
+            removed.insert(k, h);
+            if counting {
+                st.class("sole-owner.remove");
+            }
+            check(&g, &removed, &format!("after remove({})", k))?;
+        }
+        Ok(())
+    }));
+    let res = match r {
+        Ok(x) => x,
+        Err(p) => {
+            let m = panic_msg(p);
+            fail(if m.starts_with(hook::SELF_DEADLOCK) { "op.self-deadlock" } else { "op.panic" }, m)
+        }
+    };
+    if let Err(f) = res {
+        st.report(Finding {
+            property: "C18".into(),
+            flavour: F::NAME.into(),
+            clause: f.clause.into(),
+            signature: format!("{} | container-is-sole-owner | {}", F::NAME, f.clause),
+            case: json!({"kind": "container-sole-owner", "flavour": F::NAME, "n": c.n, "edges": c.edges, "removes": c.removes}),
+            detail: f.detail,
+        });
+        return false;
+    }
+    true
+}
+
+pub fn run_sole_all(c: &SoleCase, st: &mut Stats, counting: bool, only: Option<&str>) -> bool {
+    let mut ok = true;
+    if counting && !c.edges.is_empty() && !c.removes.is_empty() {
+        st.nontrivial(c);
+    }
+    macro_rules! go {
+        ($F:ty) => {
+            if only.map_or(true, |o| o == <$F>::NAME) {
+                ok &= run_sole::<$F>(c, st, counting);
+            }
+        };
+    }
+    go!(Di);
+    go!(SDi);
+    go!(Un);
+    go!(SUn);
+    ok
+}
+
+pub fn sole_strategy() -> impl Strategy<Value = SoleCase> {
+    (2usize..=6).prop_flat_map(|n| {
+        let k = move || 0..n as Key;
+        (proptest::collection::vec((k(), k(), 0u32..3), 0..=10), proptest::collection::vec(k(), 0..=n + 1)).prop_map(move |(mut edges, removes)| {
+            // distinct endpoints only: self-loops of the undirected flavours have their own list shape (checked in C02/C03)
+            edges.retain(|e| e.0 != e.1);
+            SoleCase { n, edges, removes }
+        })
+    })
+}
+
 pub fn run(ctx: &mut Ctx) {
-    ctx.rule = "cases = histories of container calls (insert of a fresh node / of a second node with an existing key, get, [], contains, len, is_empty, remove, to_vec, iter, roots/leaves/orphans, to_dot, to_dot_with_attr with generated attribute tables) interleaved with connect/disconnect/isolate on members and on removed nodes, where connect may go through a handle obtained from the container: (a) every sequence of <=L operations over a 10-letter alphabet on 2 keys followed by all observations; (b) proptest histories on 1-6 keys. Oracle: a key->allocation map model compared call by call; returned handles are the inserted allocation (pointer identity) and a connect through them is visible through the original handle; views = members filtered by their own edge lists; DOT text parsed line-wise. Non-trivial = history with (duplicate insert or remove) and an edge removal and a view/DOT observation; distinct = hash of the history.".into();
+    ctx.rule = "cases = histories of container calls (insert of a fresh node / of a second node with an existing key, get, [], contains, len, is_empty, remove, to_vec, iter, roots/leaves/orphans, to_dot, to_dot_with_attr with generated attribute tables) interleaved with connect/disconnect/isolate on members and on removed nodes, where connect may go through a handle obtained from the container: (a) every sequence of <=L operations over a 10-letter alphabet on 2 keys followed by all observations; (b) proptest histories on 1-6 keys. (c) the documented idiom where the container is the ONLY owner of every node (inserted inline, edges made through temporary handles from get), then removals with all lists, views and DOT compared with an edge model after each. Oracle: a key->allocation map model compared call by call; no container call may change any node's edge lists; returned handles are the inserted allocation (pointer identity) and a connect through them is visible through the original handle; views = members filtered by their own edge lists; DOT text parsed line-wise. Non-trivial = history with (duplicate insert or remove) and an edge removal and a view/DOT observation; distinct = hash of the history.".into();
     ctx.assumptions = vec!["Index on absent keys is not exercised (std panics by contract)".into(), "edge operations only between nodes with distinct keys (precondition of C01-C03); same-key impostor nodes are only offered to insert".into()];
     let tier = ctx.tier;
     let seed = ctx.seed;
@@ -551,11 +725,48 @@ pub fn run(ctx: &mut Ctx) {
         st
     });
     ctx.stats.merge(random);
+    // (c) the container as the only owner of its nodes
+    let sole_cases = tier.pick(1500u32, 20_000u32);
+    let sole = parallel(tier.pick(4, 16), |w| {
+        let mut st = Stats::new();
+        let cell = std::cell::RefCell::new(&mut st);
+        let strat = sole_strategy();
+        let minimal = pt::run(seed, 450 + w as u64, sole_cases, &strat, |c, counting| {
+            wd.tick();
+            if counting {
+                let mut st = cell.borrow_mut();
+                st.class("histories.container-is-sole-owner");
+                if c.edges.len() >= 3 && !c.removes.is_empty() {
+                    st.sample_kind("sole-owner", 1, || json!({"sole_owner_case": c}));
+                }
+                run_sole_all(c, &mut st, true, None)
+            } else {
+                let mut scratch = Stats::new();
+                run_sole_all(c, &mut scratch, false, None)
+            }
+        });
+        drop(cell);
+        if let Some(m) = minimal {
+            st.findings.clear();
+            run_sole_all(&m, &mut st, false, None);
+        }
+        st
+    });
+    ctx.stats.merge(sole);
     let _ = pt::idx(0, 1);
     let _: Option<State> = None;
 }
 
 pub fn replay(v: &Value, st: &mut Stats) -> Result<(), String> {
+    if v["kind"] == "container-sole-owner" {
+        let c: SoleCase = serde_json::from_value(json!({"n": v["n"], "edges": v["edges"], "removes": v["removes"]})).map_err(|e| e.to_string())?;
+        if c.edges.iter().any(|e| e.0 as usize >= c.n || e.1 as usize >= c.n || e.0 == e.1) || c.removes.iter().any(|k| *k as usize >= c.n) {
+            return Err("operand out of range".into());
+        }
+        run_sole_all(&c, st, true, v["flavour"].as_str());
+        st.sample(|| json!({"replayed": c}));
+        return Ok(());
+    }
     let c: CCase = serde_json::from_value(json!({"n": v["n"], "ops": v["ops"], "use_default": v["use_default"].as_bool().unwrap_or(false)})).map_err(|e| e.to_string())?;
     for op in &c.ops {
         let ok = match *op {
